@@ -456,7 +456,8 @@ def check(ctx):
         'For every class of the anchored files that defines __eq__ or '
         '__hash__ the attribute sets, comparison modes and type tests of '
         'both methods are extracted through super() chains and compared: '
-        'hash key is a function of what __eq__ compares (R1), value '
+        'hash key is a function of what __eq__ compares on every path that '
+        'returns True (R1), value '
         'comparison is not hashed by representation (R1c), broadcasting '
         'comparisons are shape-guarded (R1d), a type in the key needs type '
         'identity in __eq__ (R2), the key is hashable (R3), __eq__ comes '
